@@ -23,7 +23,7 @@ What is modelled (file:function → here):
     critical section with `Via.pass`): stopping ∨ suspended → give up; passivating := true;
     stopLocker.Lock; `!running` → give up (fix 6f92e10); doStop; unlock; passivating := false.
   * pid.go restartSubtree for a single node (`rCheck` …): IsRunning → Shutdown, wait ¬IsRunning;
-    spin while dispatch state = Processing; resetBehavior; init (PreStart, running := true);
+    spin until the dispatch state is Idle (fix 4b1d5a5; it was: while Processing); resetBehavior; init (PreStart, running := true);
     suspended := false; fire PostStart (no schedState.reset() since fix a5d978b).
 
 Not modelled: children and watchers (C09/C10/C17), the handler failing (C07), ctx.Shutdown() from
@@ -192,7 +192,7 @@ def tStep (c : Cfg) (i : Nat) : Cfg :=
     else setT { c with passivating := true } i (.sdLock .pass)
   | .rCheck => if c.isRunning then setT c i (.sdLock .restart) else setT c i .rSpin
   | .rWait => if c.isRunning then c else setT c i .rSpin
-  | .rSpin => if c.sched = .processing then c else setT { c with win := some i } i .rBeh
+  | .rSpin => if c.sched = .idle then setT { c with win := some i } i .rBeh else c
   | .rBeh => setT { c with beh := true } i .rPreB
   | .rPreB => setT (emit c (.preB me .restart)) i .rPreE
   | .rPreE => setT { emit c (.preE me) with running := true } i .rFin
